@@ -1,3 +1,6 @@
+pub mod c37;
+pub mod util;
+
 pub fn all() -> Vec<&'static dyn simcore::Property> {
-    vec![]
+    vec![&c37::C37]
 }
